@@ -436,3 +436,6 @@ def run(rep, facts, tier):
                             rep.add('C13.R4', 'C13.R4:field-read:%s' % fn, base_ok,
                                     'accessor / printer reads WithTag.tags' if base_ok else '%s reads WithTag.tags directly' % fn,
                                     fn, st.get('at'), nontrivial=False)
+
+# as-built addendum
+EXPLANATION += ' As built (DESIGN 9.2): As built: R1 covers the functions of the C API; R2 also: remove-tag never leaves an empty wrapper; R3 also: a stored constant keeps its tags and fresh results carry none.'
